@@ -92,11 +92,11 @@ def build_model_driver():
     """Extract the model and build ocaml/driver.ml; cached on the .vo inputs."""
     odir = os.path.join(BUILD, 'ocaml')
     os.makedirs(odir, exist_ok=True)
-    ok, log = coq_make(['Gen/Classes.vo', 'Gen/Consts.vo', 'Lib/Sem.vo'] + extra_extract_deps(), keep_going=False)
+    ok, log = coq_make(['Gen/Classes.vo', 'Gen/Consts.vo', 'Lib/Sem.vo', 'Inst/CodecDefs.vo'] + extra_extract_deps(), keep_going=False)
     if not ok:
         raise BuildError('Coq model does not compile', log)
     deps = [os.path.join(COQ, 'Extract.v'), os.path.join(VERIF, 'ocaml/driver.ml')] + \
-        sorted(glob.glob(os.path.join(COQ, 'Gen/*.v'))) + sorted(glob.glob(os.path.join(COQ, 'Lib/*Model.v'))) + \
+        sorted(glob.glob(os.path.join(COQ, 'Gen/*.v'))) + sorted(glob.glob(os.path.join(COQ, 'Lib/*.v'))) + sorted(glob.glob(os.path.join(COQ, 'Inst/*Defs.v'))) + [os.path.join(COQ, 'Inst/Common.v')] + \
         [os.path.join(COQ, 'Lib', f) for f in ('Base.v', 'IR.v', 'Sem.v')] + sorted(glob.glob(os.path.join(VERIF, 'ocaml/*')))
     key = file_hash(deps)
     stamp = os.path.join(odir, 'stamp')
